@@ -127,8 +127,9 @@ CLAIMED = {
     "C09": ("Theorems: accept iff log u < min(0, log_alpha) (all kernels); the MH balance identity a*min(1,b/a) = b*min(1,a/b); the weight mh uses is the MH log ratio of the "
             "regenerate-from-prior proposal (via C04); mala's log_alpha is the MH log ratio of the Langevin proposal with drift eps^2/2*grad, scale eps, one noise per coordinate; "
             "n leapfrog steps are reversible under momentum flip for ANY gradient function over ANY commutative ring; rejected moves return the input; unselected coordinates untouched. "
-            "leapfrog volume preservation for affine gradients (C09_leapfrog_volume_affine: n steps are an affine map with determinant 1). "
-            "NOT mechanised (partial): volume preservation for general gradients / detailed balance on R^n; the assembled finite-support detailed-balance statement for mh; Cond-indicator moves "
+            "leapfrog volume preservation for affine gradients (C09_leapfrog_volume_affine: n steps are an affine map with determinant 1) and, for an arbitrary gradient in one coordinate, "
+            "at the level of tangent maps (C09_leapfrog_volume_tangent: the chain-rule Jacobian of n steps has determinant 1). "
+            "NOT mechanised (partial): volume preservation in several coordinates / detailed balance on R^n; the assembled finite-support detailed-balance statement for mh; Cond-indicator moves "
             "are covered only through the regenerate theorems.",
             "Trusted: Coq kernel; model coq/Model/Mcmc.v over exact rationals with dual-number gradients for Gaussian programs (affine means); jax.grad is an oracle validated by the "
             "correspondence; harness/worker_mcmc.py scripts noise/momentum/threshold by replacing module globals mcmc.normal/uniform and reads log_alpha through a jnp.minimum proxy that "
@@ -155,7 +156,8 @@ CLAIMED = {
             "Coq proof (counting argument over all offsets) + differential correspondence (vm_compute)", "7/C12"),
     "C18": ("Theorems for ANY kernel, any per-step randomness, all n_steps/burn_in/thinning>=1: traces[i] = state after burn+i*thin+1 kernel applications, accepts[i] = that step's flag, "
             "result = the slice burn::thin of the un-thinned run with the same randomness, n_steps = ceil((n-burn)/thin), accepted count = number of true retained flags. "
-            "Multi-chain: per-lane equality with the single-chain result and leading chain axis are checked by the correspondence only (independence of chains rests on C06-C08).",
+            "Multi-chain: the model maps the single-chain computation over the chains (C18_chains_lanewise: leading chain axis, chain c = single-chain result on its randomness); that the "
+            "implementation does so is checked by the correspondence, independence of the chains' randomness rests on C06-C08.",
             "Trusted: Coq kernel; hand model coq/Model/Chain.v (scan + arange + index selection); correspondence harness/worker_chain.py runs chain() with scripted deterministic "
             "kernels (incl. one saving a second diagnostic) for 1 and 3 chains and the real mh kernel under seed (thinned vs un-thinned with the same key, float bit patterns). No axioms.",
             "Coq proof by induction over the step list + differential correspondence (vm_compute)", "7/C18"),
